@@ -112,6 +112,7 @@ func runC29(seed uint64, n int, out, stats string, args []string) {
 	seen := map[string]int{}
 	dist := map[string]int{}
 	nontriv, snaps, restores, contBlocks, restarts := 0, 0, 0, 0, 0
+	queriedEmpty := 0
 	var samples []string
 	for i := 0; i < n; i++ {
 		s := seed*1000003 + uint64(i)
@@ -224,6 +225,13 @@ func runC29(seed uint64, n int, out, stats string, args []string) {
 			extra := fmt.Sprintf(", snapshot height %d", h)
 			apphash := []byte{}
 			fmt.Sscanf(obsA[idx].Hash, "%x", &apphash)
+			if restores%2 == 0 {
+				// the node is asked for its status while it is still empty (a syncing node answers queries): every
+				// application-database getter is read once before the snapshot is offered
+				R.N.guard("getters on the empty node", func() { c10Getters(R.N) })
+				extra += ", getters read on the empty node before the offer"
+				queriedEmpty++
+			}
 			off := R.N.App.OfferSnapshot(abci.RequestOfferSnapshot{Snapshot: sd.Meta, AppHash: apphash})
 			if off.Result != abci.ResponseOfferSnapshot_ACCEPT {
 				fail("c29-offer-rejected", fmt.Sprintf("OfferSnapshot answered %v", off.Result), extra)
@@ -344,7 +352,7 @@ func runC29(seed uint64, n int, out, stats string, args []string) {
 		dist["monitor:"+k] = v
 	}
 	writeStats(stats, &Stats{Property: "C29", Seed: seed, Cases: c.NCases, Ops: restores, NonTrivial: nontriv,
-		Rule: "history of 16-21 blocks (reward-price update, transactions, version vote, payout block, KeepLastStates 1 / 2 / 100000) on a producer with a real cosmos-sdk snapshot store (interval 3-6 blocks); a second producer whose process is re-created after random blocks (always once right before a snapshot height) must produce byte-identical snapshots (metadata hash and every chunk read through ListSnapshots / LoadSnapshotChunk); every snapshot is restored on a fresh node through OfferSnapshot / ApplySnapshotChunk; compared with the producer: Info (height, app hash), every appdb getter right after the restore, then for every following block the DeliverTx responses, validator updates, app hash, getters (height, hash, validators, block times, versions, emission, price), the block's events, and the final state export and application database; the write sequences of the restored node's first commits are compared with Model/Crash.v (model 16); non-trivial = at least one snapshot restored; distinct by seed",
+		Rule: "history of 16-21 blocks (reward-price update, transactions, version vote, payout block, KeepLastStates 1 / 2 / 100000) on a producer with a real cosmos-sdk snapshot store (interval 3-6 blocks); a second producer whose process is re-created after random blocks (always once right before a snapshot height) must produce byte-identical snapshots (metadata hash and every chunk read through ListSnapshots / LoadSnapshotChunk); every snapshot is restored on a fresh node through OfferSnapshot / ApplySnapshotChunk (every second one after all application-database getters were read on the still empty node); compared with the producer: Info (height, app hash), every appdb getter right after the restore, then for every following block the DeliverTx responses, validator updates, app hash, getters (height, hash, validators, block times, versions, emission, price), the block's events, and the final state export and application database; the write sequences of the restored node's first commits are compared with Model/Crash.v (model 16); non-trivial = at least one snapshot restored; distinct by seed",
 		Dist: dist, Samples: samples, Monitor: mon,
-		Extra: map[string]interface{}{"snapshots": snaps, "restores": restores, "continuation_blocks": contBlocks, "producer_restarts": restarts}})
+		Extra: map[string]interface{}{"snapshots": snaps, "restores": restores, "restores_after_getters_were_read_on_the_empty_node": queriedEmpty, "continuation_blocks": contBlocks, "producer_restarts": restarts}})
 }
